@@ -9,7 +9,9 @@ calling convention into a codec that meets them.
 `Dec : Bytes → Option Bytes` is the one-shot reference decoder of exactly one member.
 -/
 import Sqfs.Model.Xfrm
+import Sqfs.Spec.Xfrm
 namespace Sqfs.Xfrm
+open Sqfs.Xfrm.Spec
 
 /-- `a` is a prefix of `b` -/
 def IsPre (a b : Bytes) : Prop := ∃ t, b = a ++ t
@@ -203,5 +205,188 @@ structure ZEncContract {τ : Type} (L : ZLib τ) (Dec : Bytes → Option Bytes) 
   /-- a call with input, or with `ZSTD_e_end`, and room does something -/
   bytes : ∀ {s x y fin} (inp : Bytes) (room : Nat) (fl : Flush), R s x y fin → Proto fin fl inp → 0 < room →
     (inp ≠ [] ∨ fl = Flush.full) → 0 < (L.call s inp room fl).consumed + (L.call s inp room fl).out.length
+
+/-! ## Stream level: what `istream_xfrm` needs from a decoder, whatever its member handling
+
+`DecContract` is phrased per member (`END` exactly at the end of each member, nothing consumed beyond it).  The
+decompressing side of `zstd.c` does not work like that: one `process_data` call decodes across frame boundaries and
+answers `END` only at the end of the input.  `precache` never looks at `END`, so transparency only needs the weaker,
+stream-level contract below, which both kinds of decoder meet (`Sqfs/Proofs/Xfrm.lean: streamOfDec`,
+`Sqfs/Proofs/XfrmZstdDec.lean: zstdDecStream`).
+-/
+
+/-- the three kinds of compressed input the property speaks about -/
+inductive Kind where
+  /-- a sequence of complete members (possibly none) -/
+  | valid
+  /-- complete members followed by a non-empty proper prefix of a valid member -/
+  | truncated
+  /-- complete members followed by bytes that neither are a prefix of a valid member nor start with one -/
+  | corrupt
+  deriving DecidableEq, Repr
+
+/-- `c` is neither a prefix of a valid member nor does it start with one (so it is not empty, if a valid member exists):
+what follows the last intact member of a **corrupted** input -/
+def Dead (Dec : Bytes → Option Bytes) (c : Bytes) : Prop :=
+  c ≠ [] ∧ ∀ m x, Dec m = some x → ¬ IsPre c m ∧ ¬ IsPre m c
+
+/-- what follows the complete members: nothing / a cut-off member with content `xT` / dead bytes -/
+def Tail (Dec : Bytes → Option Bytes) (K : Kind) (t xT : Bytes) : Prop :=
+  match K with
+  | Kind.valid => t = [] ∧ xT = []
+  | Kind.truncated => t ≠ [] ∧ ∃ t', t' ≠ [] ∧ Dec (t ++ t') = some xT
+  | Kind.corrupt => Dead Dec t ∧ xT = []
+
+/--
+One step hands out `out` while the exact content `rem` and then at most `j` bytes of unspecified data ("junk": what a
+decoder emits between the point where the input goes wrong and the point where it notices) are still to come;
+afterwards `rem'` and at most `j'` are still to come.  With `j = 0` this is `rem = out ++ rem'`.
+-/
+def Link (rem : Bytes) (j : Nat) (out rem' : Bytes) (j' : Nat) : Prop :=
+  ∃ a b, out = a ++ b ∧ rem = a ++ rem' ∧ (b ≠ [] → rem' = []) ∧ b.length + j' ≤ j
+
+/-- what a reader may have received: a prefix of the exact content `X`, or all of it followed by at most `J` junk bytes -/
+def Deliv (X : Bytes) (J : Nat) (acc : Bytes) : Prop :=
+  ∃ a b, acc = a ++ b ∧ IsPre a X ∧ b.length ≤ J ∧ (b ≠ [] → a = X)
+
+/--
+Stream-level contract of a **decoder**.  `G K s rest rem j`: the decoder is in state `s`, the wrapped stream still holds
+`rest` (an input of kind `K`), and the content still to come is exactly `rem`, followed — only for `K = corrupt` — by at
+most `j` bytes of junk.
+
+* `step_none`: a call with a non-empty prefix of `rest`, room and `FLUSH_NONE` fails only on corrupted input; otherwise it
+  stays inside its buffers, what it hands out continues the content, `BUFFER_FULL` comes with output, and it consumes
+  something, or comes closer to having handed out everything, or fills the buffer.
+* `step_full`: the call at the end of the input (`FLUSH_FULL`, no input) fails only on truncated/corrupted input; otherwise
+  it hands out more content; on valid input "nothing handed out" means that nothing is left; on truncated/corrupted input
+  it never comes back empty-handed (that is what would be taken for a regular end of stream).
+-/
+structure StreamDecContract {σ : Type} (C : Codec σ) (Dec : Bytes → Option Bytes) where
+  G : Kind → σ → Bytes → Bytes → Nat → Prop
+  pend : σ → Nat
+  start_valid : ∀ {ms xs : List Bytes}, Members Dec ms xs → G Kind.valid C.init ms.flatten xs.flatten 0
+  start_truncated : ∀ {ms xs : List Bytes} {t t' xT : Bytes}, Members Dec ms xs → t ≠ [] → t' ≠ [] →
+    Dec (t ++ t') = some xT → G Kind.truncated C.init (ms.flatten ++ t) (xs.flatten ++ xT) 0
+  no_junk : ∀ {K s rest rem j}, G K s rest rem j → K ≠ Kind.corrupt → j = 0
+  step_none : ∀ {K s rest rem j}, G K s rest rem j → ∀ (n room : Nat), 0 < n → n ≤ rest.length → 0 < room →
+    ∀ r, r = C.step s (rest.take n) room Flush.none →
+    (r.res = Res.error ∧ K = Kind.corrupt) ∨
+    (r.res ≠ Res.error ∧ r.out.length ≤ room ∧ r.consumed ≤ n ∧
+      (∃ rem' j', G K r.st (rest.drop r.consumed) rem' j' ∧ Link rem j r.out rem' j') ∧
+      (r.res = Res.bufferFull → r.out ≠ []) ∧
+      (0 < r.consumed ∨ pend r.st < pend s ∨ r.res = Res.bufferFull))
+  step_full : ∀ {K s rem j}, G K s [] rem j → ∀ (room : Nat), 0 < room →
+    ∀ r, r = C.step s [] room Flush.full →
+    (r.res = Res.error ∧ K ≠ Kind.valid) ∨
+    (r.res ≠ Res.error ∧ r.consumed = 0 ∧ r.out.length ≤ room ∧
+      (∃ rem' j', G K r.st [] rem' j' ∧ Link rem j r.out rem' j') ∧
+      (K = Kind.valid → r.out = [] → rem = []) ∧ (K ≠ Kind.valid → r.out ≠ []))
+
+/-- … and its behaviour on **corrupted** input: behind any sequence of intact members, dead bytes `c` lead to an error
+after at most `budget |c|` bytes of junk -/
+structure StreamDecErrContract {σ : Type} (C : Codec σ) (Dec : Bytes → Option Bytes) extends StreamDecContract C Dec where
+  budget : Nat → Nat
+  start_corrupt : ∀ {ms xs : List Bytes} {c : Bytes}, Members Dec ms xs → Dead Dec c →
+    G Kind.corrupt C.init (ms.flatten ++ c) xs.flatten (budget c.length)
+
+/--
+Codec-level contract for input that has **gone wrong** (extension of `DecContract`), first part.  `B s rest j`: the decoder
+is inside (or at the start of) something that is not a member, `rest` is all that is left of the input, and at most `j` more
+bytes will be handed out.  From then on a call either reports an error or keeps to its buffers and makes progress; at the end
+of the input it reports an error unless it still has something to hand out — it **never** comes back empty-handed and never
+consumes "successfully" for ever.  Nothing is said about `END`: `precache` does not look at it.
+-/
+structure Doom {σ : Type} {C : Codec σ} {Dec : Bytes → Option Bytes} (hD : DecContract C Dec) where
+  B : σ → Bytes → Nat → Prop
+  budget : Nat → Nat
+  step_none : ∀ {s rest j}, B s rest j → ∀ (n room : Nat), 0 < n → n ≤ rest.length → 0 < room →
+    ∀ r, r = C.step s (rest.take n) room Flush.none →
+    r.res = Res.error ∨
+    (r.out.length ≤ room ∧ r.consumed ≤ n ∧ (∃ j', B r.st (rest.drop r.consumed) j' ∧ r.out.length + j' ≤ j) ∧
+      (r.res = Res.bufferFull → r.out ≠ []) ∧
+      (0 < r.consumed ∨ hD.pend r.st < hD.pend s ∨ r.res = Res.bufferFull))
+  step_full : ∀ {s j}, B s [] j → ∀ (room : Nat), 0 < room →
+    ∀ r, r = C.step s [] room Flush.full →
+    r.res = Res.error ∨
+    (r.consumed = 0 ∧ r.out ≠ [] ∧ r.out.length ≤ room ∧ ∃ j', B r.st [] j' ∧ r.out.length + j' ≤ j)
+
+/-- … second part: at a member boundary, dead bytes `c` lead into `B` with a budget that depends on their number only -/
+structure DecErrContract {σ : Type} {C : Codec σ} {Dec : Bytes → Option Bytes} (hD : DecContract C Dec) extends Doom hD where
+  enter : ∀ {s : σ} {c : Bytes}, hD.R s [] [] → Dead Dec c → B s c (budget c.length)
+
+/-! ### libzstd, decompressing -/
+
+/--
+Calling convention of `ZSTD_decompressStream` on well-formed input.  `R s u v`: of the current frame `u` has been consumed
+and `v` handed out.  Calls are made with room, and with input or inside a frame (`zstd.c` keeps a `pending` flag for that).
+The return value (`hint`) is 0 **exactly** when the frame is completely decoded and handed out.
+-/
+structure ZDecContract {τ : Type} (L : ZLib τ) (Dec : Bytes → Option Bytes) where
+  R : τ → Bytes → Bytes → Prop
+  init : R L.init [] []
+  dec_nil : Dec [] = none
+  valid : ∀ {s u v} (w x tail inp : Bytes) (room : Nat) (fl : Flush), R s u v → Dec (u ++ w) = some x →
+    IsPre inp (w ++ tail) → 0 < room → (u ≠ [] ∨ inp ≠ []) →
+    (L.call s inp room fl).isError = false ∧
+    (L.call s inp room fl).consumed ≤ inp.length ∧ (L.call s inp room fl).consumed ≤ w.length ∧
+    (L.call s inp room fl).out.length ≤ room ∧ IsPre (v ++ (L.call s inp room fl).out) x ∧
+    ((L.call s inp room fl).hint = 0 ↔
+      ((L.call s inp room fl).consumed = w.length ∧ v ++ (L.call s inp room fl).out = x)) ∧
+    ((L.call s inp room fl).hint = 0 → R (L.call s inp room fl).st [] []) ∧
+    ((L.call s inp room fl).hint ≠ 0 →
+      R (L.call s inp room fl).st (u ++ inp.take (L.call s inp room fl).consumed) (v ++ (L.call s inp room fl).out))
+  /-- a call with input and room does something -/
+  bytes : ∀ {s u v} (w x tail inp : Bytes) (room : Nat) (fl : Flush), R s u v → Dec (u ++ w) = some x →
+    IsPre inp (w ++ tail) → 0 < room → inp ≠ [] →
+    0 < (L.call s inp room fl).consumed + (L.call s inp room fl).out.length
+  /-- output is produced as the input is consumed: a call after which the frame is completely consumed hands something out
+      or reports the end of the frame -/
+  drain : ∀ {s u v} (w x tail inp : Bytes) (room : Nat) (fl : Flush), R s u v → Dec (u ++ w) = some x →
+    IsPre inp (w ++ tail) → 0 < room → (u ≠ [] ∨ inp ≠ []) → (L.call s inp room fl).consumed = w.length →
+    (L.call s inp room fl).out ≠ [] ∨ (L.call s inp room fl).hint = 0
+
+/-- `ZSTD_decompressStream` on input that has gone wrong, called with input or at the end of the input (`zstd.c` makes no
+other calls): an error code, or it keeps to its buffers, does something, and never claims that a frame is complete (`hint ≠ 0`) -/
+structure ZDoom {τ : Type} {L : ZLib τ} {Dec : Bytes → Option Bytes} (hZ : ZDecContract L Dec) where
+  B : τ → Bytes → Nat → Prop
+  budget : Nat → Nat
+  call : ∀ {s rest j}, B s rest j → ∀ (inp : Bytes) (room : Nat) (fl : Flush), IsPre inp rest → 0 < room →
+    (inp ≠ [] ∨ rest = []) →
+    ∀ r, r = L.call s inp room fl →
+    r.isError = true ∨
+    (r.consumed ≤ inp.length ∧ r.out.length ≤ room ∧ r.hint ≠ 0 ∧
+      (∃ j', B r.st (rest.drop r.consumed) j' ∧ r.out.length + j' ≤ j) ∧
+      (inp ≠ [] → 0 < r.consumed + r.out.length))
+
+structure ZDecErrContract {τ : Type} {L : ZLib τ} {Dec : Bytes → Option Bytes} (hZ : ZDecContract L Dec) extends ZDoom hZ where
+  enter : ∀ {s : τ} {c : Bytes}, hZ.R s [] [] → Dead Dec c → B s c (budget c.length)
+
+/-! ### zlib, liblzma, libbz2 on input that has gone wrong -/
+
+/--
+Error-return convention of a zlib-style **decompressing** stream object (`inflate`, `lzma_code` on a decoder,
+`BZ2_bzDecompress`) once its input is no longer (a prefix of) a valid member.  `B s rest j`: `rest` is all the input left, at
+most `j` more bytes will be produced.  A call then answers an error code (`Z_DATA_ERROR`, `LZMA_DATA_ERROR`/`FORMAT_ERROR`/
+`MEMLIMIT_ERROR`…, `BZ_DATA_ERROR`…), or `OK`/`BUF_ERROR` under the same rules as on good input (stays inside the buffers, `OK`
+with input means progress, `BUF_ERROR` without output only when all input has been taken) — but **never `STREAM_END`**: the
+integrity check of the format is taken to be sound.  `total_in` is positive once any of the bad bytes has been consumed.
+-/
+structure LibDoom {τ : Type} {L : Lib τ} {b : Backend} {Dec : Bytes → Option Bytes} (hL : LibDecContract L b Dec) where
+  B : τ → Bytes → Nat → Prop
+  budget : Nat → Nat
+  total : ∀ {s rest j}, B s rest j → L.totalIn s = 0 → rest ≠ []
+  call : ∀ {s rest j}, B s rest j → ∀ (inp : Bytes) (room : Nat) (fl : Flush), IsPre inp rest → 0 < room →
+    ∀ r, r = L.call s inp room fl →
+    (r.ret = LibRet.dataError ∨ r.ret = LibRet.streamError) ∨
+    ((r.ret = LibRet.ok ∨ (r.ret = LibRet.bufError ∧ b ≠ Backend.bzip2)) ∧
+      r.consumed ≤ inp.length ∧ r.out.length ≤ room ∧
+      (∃ j', B r.st (rest.drop r.consumed) j' ∧ r.out.length + j' ≤ j) ∧
+      (r.ret = LibRet.ok → inp ≠ [] → 0 < r.consumed + r.out.length) ∧
+      (r.ret = LibRet.bufError → r.out = [] → r.consumed = inp.length ∧ (fl = Flush.full ∨ inp = [])) ∧
+      (inp ≠ [] → 0 < r.consumed ∨ hL.pend r.st < hL.pend s))
+
+structure LibDecErrContract {τ : Type} {L : Lib τ} {b : Backend} {Dec : Bytes → Option Bytes} (hL : LibDecContract L b Dec)
+    extends LibDoom hL where
+  enter : ∀ {s : τ} {c : Bytes}, hL.R s [] [] → Dead Dec c → B s c (budget c.length)
 
 end Sqfs.Xfrm
